@@ -82,7 +82,7 @@ PROPS["C18"] = dict(
     level="other",
     explanation="cloudevents FormatterFilter.Process / validate / sign / Rotate executed symbolically over all configurations (source nil/empty/set, schema nil/empty/set, arbitrary format string, signer absent/succeeding/failing, <=T listed types, predicate absent/true/false/error) and payload kinds (plain, ID, Data, both); json.Encoder.Encode, base64 and url.URL.String are uninterpreted/deterministic functions, so 'serialized is the exact unsigned document' and 'signer saw exactly those bytes' are term equalities decided by z3.",
     jobs=[dict(pkg="./formatter_filters/cloudevents", harness=["cloudevents/cloudevents.go"], entries=r"^H_C18_", params=dict(quick=dict(T=1), thorough=dict(T=3)), shards=dict(quick=8, thorough=16))],
-    must_reach=["C18.invalid", "C18.emptyid", "C18.ok-signed", "C18.ok-unsigned", "C18.error", "C18.rotate"],
+    must_reach=["C18.invalid", "C18.emptyid", "C18.ok-signed", "C18.ok-unsigned", "C18.error", "C18.rotate", "C18.two.end"],
     bounds=dict(quick="SignEventTypes <= 1", thorough="SignEventTypes <= 3"),
     assumptions=["event type non-empty (only such events come from Broker.Send)", "JSON text validity is trusted encoding/json", "url.URL.String modelled for path-only URLs as the path"],
     trusted_base=COMMON_TRUST,
@@ -92,7 +92,7 @@ PROPS["C14"] = dict(
     level="other",
     explanation="JSONFormatter / JSONFormatterFilter / Filter / Event.FormattedAs / Event.Format executed symbolically over arbitrary events (symbolic type, time, payload fields, nil or <=2-entry format table) and predicate outcomes; json.Encoder.Encode is an uninterpreted deterministic function of the flattened value (including the struct's field tags), so 'the stored bytes are the encoding of exactly {created_at,event_type,payload}' is a term equality against an independently written reference encoding.",
     jobs=[dict(harness=BROKER_H, entries=r"^H_C14_", params=dict(quick={}, thorough={}))],
-    must_reach=["C14.unencodable", "C14.forwarded", "C14.filter.end", "C14.table.end"],
+    must_reach=["C14.unencodable", "C14.forwarded", "C14.filter.end", "C14.table.end", "C14.two.end"],
     bounds=dict(quick="format table nil or <=2 entries", thorough="same"),
     assumptions=["validity / round-trip of the JSON text itself is trusted encoding/json", "concurrent FormattedAs/Format: see C19 (lockset)"],
     trusted_base=COMMON_TRUST,
